@@ -19,6 +19,52 @@ from fractions import Fraction
 
 from harness import core
 
+import os
+import pickle
+import signal
+
+
+def forked(fn, arg):
+    """Run fn(arg) in a forked child (the runtimes are only ever used in children): a runtime that dies
+    on a model (SIGFPE on an integer division, say) must not take the check down with it."""
+    r, w = os.pipe()
+    pid = os.fork()
+    if pid == 0:
+        try:
+            os.close(r)
+            try:
+                out = pickle.dumps(("ok", fn(arg)))
+            except BaseException as e:  # noqa: BLE001
+                out = pickle.dumps(("exc", f"{type(e).__name__}: {e}"))
+            with os.fdopen(w, "wb") as f:
+                f.write(out)
+        finally:
+            os._exit(0)
+    os.close(w)
+    with os.fdopen(r, "rb") as f:
+        data = f.read()
+    _, status = os.waitpid(pid, 0)
+    if os.WIFSIGNALED(status):
+        return ("crash", signal.Signals(os.WTERMSIG(status)).name)
+    if not data:
+        return ("crash", "no-answer")
+    return pickle.loads(data)
+
+
+def forked_batch(fn, items, size=64):
+    """[fn(x) for x in items] in forked children, `size` items per child; a batch whose child dies is
+    re-run item by item so that the culprit is identified. Results: ('ok', value) | ('crash', sig) | ('exc', msg)."""
+    out = []
+    for i in range(0, len(items), size):
+        chunk = items[i:i + size]
+        res = forked(lambda xs: [fn(x) for x in xs], chunk)
+        if res[0] == "ok":
+            out.extend(("ok", v) for v in res[1])
+        else:
+            out.extend(forked(fn, x) for x in chunk)
+    return out
+
+
 BIN = ["add", "sub", "mul", "truediv", "floordiv"]
 LOGIC = ["and_", "or_", "xor"]
 UNARY = ["neg", "not_"]
@@ -455,50 +501,71 @@ def run(ck: core.Check):
     eval_mism = 0
     eval_reqs, eval_real = [], []
     engines = {}
-    for opname, oa, ob in value_cases:
-        found = value_case(env, opname, oa, ob)
+    def crash_failure(opname, oa, ob, res, extra=None):
+        what = (f"{describe(env, opname, oa, ob)}: the runtime died ({res[1]}) on the model spox built, on operand values "
+                "for which numpy computes a result" if res[0] == "crash" else
+                f"{describe(env, opname, oa, ob)}: {res[1]}")
+        ck.failure(f"{opname}:{'runtime-crash' if res[0] == 'crash' else 'oracle-exception'}", what,
+                   dict({"check": "value", "op": opname, "a": oa, "b": ob}, **(extra or {})))
+
+    results = forked_batch(lambda c: value_case(env, *c), value_cases)
+    for (opname, oa, ob), res in zip(value_cases, results):
         ck.count(("value", opname, repr(oa), repr(ob)))
-        if found:
-            for key, what, _ in found:
-                ck.failure(key, what, {"check": "value", "op": opname, "a": oa, "b": ob})
+        if res[0] != "ok":
+            crash_failure(opname, oa, ob, res)
+            continue
+        for key, what, _ in res[1]:
+            ck.failure(key, what, {"check": "value", "op": opname, "a": oa, "b": ob})
     ck.cov["value_cases"] = len(value_cases)
 
     # propagated-value path (constants instead of arguments) on a seeded sample, all operators
-    for opname, oa, ob in rng.sample(value_cases, ck.pick(60, 400)):
-        for key, what, _ in value_case(env, opname, oa, ob, const_path=True):
-            ck.failure(key + ":propagated", what, {"check": "value", "op": opname, "a": oa, "b": ob, "const_path": True})
+    prop_cases = rng.sample(value_cases, ck.pick(60, 400))
+    results = forked_batch(lambda c: value_case(env, *c, const_path=True), prop_cases)
+    for (opname, oa, ob), res in zip(prop_cases, results):
         ck.count(("value-prop", opname, repr(oa), repr(ob)))
+        if res[0] != "ok":
+            crash_failure(opname, oa, ob, res, {"const_path": True})
+            continue
+        for key, what, _ in res[1]:
+            ck.failure(key, what + " [propagated value]", {"check": "value", "op": opname, "a": oa, "b": ob, "const_path": True})
 
     # eval correspondence: the model's integer semantics of the emitted tree vs onnxruntime
     INT = list(range(8))
-    for opname in ["add", "sub", "mul", "floordiv"]:
-        for a in INT:
-            for b in INT:
-                dt_a, dt_b = env.dtypes[a], env.dtypes[b]
-                xs = grid(np, dt_a)
-                ys = grid(np, dt_b, divisor=(opname == "floordiv"))
-                if opname == "floordiv":
-                    ys = ys[ys != -1]
-                res, r, args = env.dispatch([True, True], opname, ["var", a], ["var", b])
-                if "tree" not in res or np.dtype(env.dtypes[res["dtype"]]).kind not in "iu":
-                    continue
-                va = env.spox.argument(env.spox.Tensor(np.dtype(dt_a), ("N", 1)))
-                vb = env.spox.argument(env.spox.Tensor(np.dtype(dt_b), ("M",)))
-                with env.fut.operator_overloading(env.op, type_promotion=True):
-                    rr = PYOP[opname](va, vb)
-                got, _ = env.run_model(rr, {"a": va, "b": vb}, {"a": xs.reshape(-1, 1), "b": ys})
-                eval_reqs.append({"settings": [True, True], "op": opname, "a": ["var", a], "b": ["var", b],
-                                  "xs": [int(v) for v in xs], "ys": [int(v) for v in ys]})
-                eval_real.append([[int(v) for v in row] for row in got])
-    for a in range(4):
-        xs = grid(np, env.dtypes[a], no_min=False)
-        va = env.spox.argument(env.spox.Tensor(np.dtype(env.dtypes[a]), ("N",)))
+
+    def ort_grid(job):
+        opname, a, b = job
+        dt_a = env.dtypes[a]
+        xs = grid(np, dt_a)
+        if opname == "neg":
+            va = env.spox.argument(env.spox.Tensor(np.dtype(dt_a), ("N",)))
+            with env.fut.operator_overloading(env.op, type_promotion=True):
+                rr = -va
+            got, _ = env.run_model(rr, {"a": va}, {"a": xs})
+            return ({"settings": [True, True], "op": "neg", "a": ["var", a], "b": ["other"],
+                     "xs": [int(v) for v in xs], "ys": [0]}, [[int(v)] for v in got])
+        dt_b = env.dtypes[b]
+        ys = grid(np, dt_b, divisor=(opname == "floordiv"))
+        if opname == "floordiv":
+            ys = ys[ys != -1]
+        res, r, args = env.dispatch([True, True], opname, ["var", a], ["var", b])
+        if "tree" not in res or np.dtype(env.dtypes[res["dtype"]]).kind not in "iu":
+            return None
+        va = env.spox.argument(env.spox.Tensor(np.dtype(dt_a), ("N", 1)))
+        vb = env.spox.argument(env.spox.Tensor(np.dtype(dt_b), ("M",)))
         with env.fut.operator_overloading(env.op, type_promotion=True):
-            rr = -va
-        got, _ = env.run_model(rr, {"a": va}, {"a": xs})
-        eval_reqs.append({"settings": [True, True], "op": "neg", "a": ["var", a], "b": ["other"],
-                          "xs": [int(v) for v in xs], "ys": [0]})
-        eval_real.append([[int(v)] for v in got])
+            rr = PYOP[opname](va, vb)
+        got, _ = env.run_model(rr, {"a": va, "b": vb}, {"a": xs.reshape(-1, 1), "b": ys})
+        return ({"settings": [True, True], "op": opname, "a": ["var", a], "b": ["var", b],
+                 "xs": [int(v) for v in xs], "ys": [int(v) for v in ys]}, [[int(v) for v in row] for row in got])
+
+    jobs = [(opname, a, b) for opname in ["add", "sub", "mul", "floordiv"] for a in INT for b in INT]
+    jobs += [("neg", a, None) for a in range(4)]
+    for job, res in zip(jobs, forked_batch(ort_grid, jobs)):
+        if res[0] != "ok":
+            ck.broken("correspondence", "C17 integer semantics (eval) vs onnxruntime", f"{job}: {res}")
+        elif res[1] is not None:
+            eval_reqs.append(res[1][0])
+            eval_real.append(res[1][1])
     if model is not None:
         try:
             outs = ck.driver().ask_many("C17", eval_reqs)
@@ -517,12 +584,13 @@ def run(ck: core.Check):
 
     # float floor division: the family of the listed finding (quotients that round up to an integer)
     probes = [(1.0, 0.1), (6.0, 0.2), (0.3, 0.1), (7.0, 0.7), (2.0, 0.4), (-1.0, 0.1), (1.0, -0.1), (9.0, 0.3), (4.5, 1.5), (-7.0, 2.0)]
-    for dtn in ["float32", "float64"]:
-        for x, y in probes:
-            bad = float_probe(env, dtn, x, y)
-            ck.count(("float-floordiv", dtn, x, y))
-            if bad:
-                ck.failure(bad[0], bad[1], {"check": "float_probe", "dtype": dtn, "x": x, "y": y})
+    pjobs = [(dtn, x, y) for dtn in ["float32", "float64"] for x, y in probes]
+    for (dtn, x, y), res in zip(pjobs, forked_batch(lambda j: float_probe(env, *j), pjobs)):
+        ck.count(("float-floordiv", dtn, x, y))
+        if res[0] != "ok":
+            ck.failure("floordiv:runtime-crash", f"float probe {dtn} {x} // {y}: {res}", {"check": "float_probe", "dtype": dtn, "x": x, "y": y})
+        elif res[1]:
+            ck.failure(res[1][0], res[1][1], {"check": "float_probe", "dtype": dtn, "x": x, "y": y})
 
     # promotion switched off; outside a block
     n_strict = 0
@@ -575,11 +643,12 @@ def replay(ck: core.Check, doc) -> bool:
     env = Env(result_type.tabulate())
     case = doc["case"]
     saved = env.Var._operator_dispatcher
-    try:
-        found = CHECKS[case["check"]](env, case)
-    finally:
-        env.Var._operator_dispatcher = saved
-    want = doc.get("key", "").replace(":propagated", "")
+    res = forked(lambda c: CHECKS[c["check"]](env, c), case)
+    env.Var._operator_dispatcher = saved
+    if res[0] != "ok":
+        print(f"runtime failure on this input: {res}")
+        return True
+    found = res[1]
     for key, what in found:
         print(f"{key}: {what}")
     return bool(found)
